@@ -118,7 +118,7 @@ func ownerClose(c *Ctx, rule string) {
 				continue
 			}
 			n++
-			if _, ok := released[f.Name()]; !ok {
+			if _, ok := released[canonFieldName(named, f.Name())]; !ok {
 				bad++
 				c.Fail(rule, o.typ+"."+f.Name(), cl.Pos(), fmt.Sprintf("%s.Close never calls %s on field %s (%s): the native object outlives the store", o.typ, rel, f.Name(), typeStr(f.Type())))
 			}
